@@ -27,6 +27,7 @@ type Val struct {
 	Tuple []*Val
 	Spec  *SpecFunc // reference to a spec function (callee position)
 	Boxed bool      // pointer to a heap-allocated struct local standing for the local itself
+	Arr   *Term     // for slice parameters of spec functions: the backing array, passed explicitly
 	// provenance hints (for diagnostics)
 	Note string
 }
@@ -144,6 +145,9 @@ type Exec struct {
 	inlineDepth int
 	ghostExec bool
 	bodyHash string
+	prevState *State // state before the statement an `after` hook is attached to
+	clipped map[string]bool // slice terms known to have cap == len
+	hypTags map[*Term]string
 	contentStrings bool
 	quantDepth int
 	exitAfterHooks bool
@@ -531,6 +535,12 @@ func (ex *Exec) sliceAxioms() []*Term {
 // mkSlice builds a fresh slice term with the given components.
 func (ex *Exec) mkSlice(st *State, ref, off, ln, cp *Term) *Term {
 	s := ex.fresh("sl", SSlice)
+	if ln == cp || ln.String() == cp.String() {
+		if ex.clipped == nil {
+			ex.clipped = map[string]bool{}
+		}
+		ex.clipped[s.Op] = true
+	}
 	st.assume(eq(ex.sRef(s), ref))
 	st.assume(eq(ex.sOff(s), off))
 	st.assume(eq(ex.sLen(s), ln))
@@ -627,17 +637,30 @@ func (ex *Exec) mem(st *State, elem types.Type) *Term {
 	return ex.heap(st, n, s)
 }
 
+// ix is the absolute position of element i of a slice with offset off.  It is
+// an uninterpreted function with the definitional axiom ix(a,b) = a+b, so that
+// quantifier triggers over element accesses contain no arithmetic.
+func (ex *Exec) ix(off, i *Term) *Term {
+	if _, ok := ex.D.byName["ix"]; !ok {
+		ex.D.declare("ix", []string{SInt, SInt}, SInt)
+		a, b := mk("a?", SInt), mk("b?", SInt)
+		app := mk("ix", SInt, a, b)
+		ex.D.axiom("ix.def", forall([]*Term{a, b}, eq(app, mk("+", SInt, a, b)), []*Term{app}))
+	}
+	return mk("ix", SInt, off, i)
+}
+
 // sliceElem reads s[i] (no bounds obligation here).
 func (ex *Exec) sliceElem(st *State, s *Term, i *Term, elem types.Type) *Term {
 	m := ex.mem(st, elem)
-	return sel(sel(m, ex.sRef(s)), add(ex.sOff(s), i))
+	return sel(sel(m, ex.sRef(s)), ex.ix(ex.sOff(s), i))
 }
 
 func (ex *Exec) sliceStore(st *State, s *Term, i *Term, elem types.Type, v *Term) {
 	n, _ := ex.memName(elem)
 	m := ex.mem(st, elem)
 	inner := sel(m, ex.sRef(s))
-	st.heaps[n] = store(m, ex.sRef(s), store(inner, add(ex.sOff(s), i), v))
+	st.heaps[n] = store(m, ex.sRef(s), store(inner, ex.ix(ex.sOff(s), i), v))
 }
 
 // fieldHeap: heap of a struct field accessed through pointers.
@@ -718,5 +741,19 @@ func (ex *Exec) obligeAST(kind, anchor string, pos token.Pos, ok bool, msg strin
 			ob.ASTMsg += "; "
 		}
 		ob.ASTMsg += msg
+	}
+}
+
+// tagHyp remembers which contract clause a hypothesis came from (used only to
+// select hypotheses when a query is retried with fewer of them).
+func (ex *Exec) tagHyp(t *Term, label string) {
+	if ex.hypTags == nil {
+		ex.hypTags = map[*Term]string{}
+	}
+	ex.hypTags[t] = label
+	if t.Op == "and" {
+		for _, a := range t.Args {
+			ex.tagHyp(a, label)
+		}
 	}
 }
